@@ -30,7 +30,7 @@ def run_model(ev, part, cfg, binaries, p, walks=0, walk_len=0, shards=1, tlc_tim
     if r.violation:
         return r, None, None, None, None
     g = vf.StateGraph.from_tlc(r.outfile, init_id={"f": []})
-    ev.add_tlc(part, r, {"graph_states": len(g.obs), "graph_edges": g.nedges, "cfg": cfg})
+    ev.add_tlc(part, r, {"graph_states": len(g.obs), "graph_edges": g.nedges, "transitions_by_action": vf.by_action(g), "cfg": cfg})
     work = os.path.join(vf.BUILD, "work", "%s_%s_%d" % (ev.prop, part, os.getpid()))
     rnd = random.Random(vf.seed())
     env = {"VF_P": str(p)}
